@@ -372,7 +372,7 @@ def r06_4(cx):
                 if nm.endswith('slice::sort_by_key') or nm.endswith('slice::sort_by_cached_key'):
                     # the stable sort by key: the key must be Reverse(length of the pattern with that id)
                     f = c[2][1]
-                    cb = cx.facts.bodies.get(f[2]) if f[0] == 'agg' and f[1] == 'closure' else None
+                    cb = _closure_body(cx, f)
                     if cb is None:
                         why = why or 'the leftmost-longest sort key is not a closure literal'
                         continue
@@ -401,7 +401,7 @@ def r06_4(cx):
                     why = why or 'leftmost-longest orders the patterns with %s (expected the stable sort_by: equal lengths keep insertion order)' % nm
                     continue
                 f = c[2][1]
-                cb = cx.facts.bodies.get(f[2]) if f[0] == 'agg' and f[1] == 'closure' else None
+                cb = _closure_body(cx, f)
                 if cb is None:
                     why = why or 'the leftmost-longest comparator is not a closure literal'
                     continue
@@ -979,3 +979,14 @@ def r06_10(cx):
     if why is None and not (n_hit == 1 and n_new == 1):
         why = 'expected one known-key path and one new-key path per pattern (found %d / %d)' % (n_hit, n_new)
     cx.report('R06.10', b, 'bucket-map', why is None, 'the bucket is looked up by the full key in a map that starts empty; a new key records the bucket it was given, a known key follows it' if why is None else 'Teddy::new: ' + why)
+
+
+def _closure_body(cx, f):
+    """body of a closure value, with helpers that did not exist on the reference tree spliced in"""
+    if not (f[0] == 'agg' and f[1] == 'closure'):
+        return None
+    cb = cx.facts.bodies.get(f[2])
+    if cb is None:
+        return None
+    from acverif.inline import inlined_body
+    return inlined_body(cx.facts, cb)
